@@ -136,6 +136,27 @@ func (c *Ctx) valueLanguage(v ssa.Value, fn *ssa.Function, depth int) (*rx.Lang,
 			}
 		}
 	}
+	// a function of package strings applied to a value with a known language: over-approximate
+	// by the alphabet of that language (plus the runes of constant arguments)
+	if call, ok := v.(*ssa.Call); ok {
+		if f := staticCallee(&call.Call); f != nil && objPkgPath(f) == "strings" && len(call.Call.Args) > 0 {
+			inner, what, why := c.valueLanguage(call.Call.Args[0], fn, depth+1)
+			if inner == nil {
+				return nil, "", why
+			}
+			extra := ""
+			for _, a := range call.Call.Args[1:] {
+				if sv, ok := constString(a); ok {
+					extra += sv
+				}
+			}
+			l, err := rx.AlphabetStar("strings."+f.Name()+" of "+inner.Name, inner, extra)
+			if err != nil {
+				return nil, "", err.Error()
+			}
+			return l, "the result of strings." + f.Name() + " applied to " + what + " (over-approximated by its alphabet)", ""
+		}
+	}
 	return nil, "", fmt.Sprintf("inserted value %T has no known language", v)
 }
 
@@ -244,6 +265,17 @@ func (c *Ctx) RuleRxIncl() *Result {
 			if !ok || !(m == "ReplaceAllString" || m == "ReplaceAll") {
 				return
 			}
+			for _, row := range expandTable(recv, call.Call.Args[2]) {
+				c.inclOne(res, fn, call, row[0], row[1])
+			}
+		})
+	}
+	return res
+}
+
+// inclOne judges one (pattern, template) pair of a ReplaceAll call.
+func (c *Ctx) inclOne(res *Result, fn *ssa.Function, call *ssa.Call, recv ssa.Value, tmpl ssa.Value) {
+	func() {
 			res.Instances++
 			p, why := c.Rx().Resolve(recv)
 			pos := c.P.InstrPos(call)
@@ -253,7 +285,7 @@ func (c *Ctx) RuleRxIncl() *Result {
 			}
 			key := load.FnName(fn) + ":replace " + p.Name
 			// template
-			tv := stripConv(call.Call.Args[2])
+			tv := stripConv(tmpl)
 			tcall, ok := tv.(*ssa.Call)
 			if !ok || !isFn(staticCallee(&tcall.Call), "fmt", "Sprintf") {
 				res.undecided(key, pos, "the replacement template is not a Sprintf of a constant format")
@@ -359,7 +391,113 @@ func (c *Ctx) RuleRxIncl() *Result {
 			} else {
 				res.ok(key, pos, fmt.Sprintf("template %q: every inserted value's language is included in the language of the pattern segment it replaces", format))
 			}
-		})
+
+	}()
+}
+
+// expandTable: a pattern and its template taken from the same element of a
+// table (slice literal of structs ranged over) stand for one pair per row;
+// otherwise the pair itself.
+func expandTable(recv, tmpl ssa.Value) [][2]ssa.Value {
+	same := [][2]ssa.Value{{recv, tmpl}}
+	// element source and field index of a value read from a table element
+	norm := func(v ssa.Value) (ssa.Value, int, bool) {
+		switch x := v.(type) {
+		case *ssa.Field:
+			return x.X, x.Field, true
+		case *ssa.UnOp:
+			fa, ok := x.X.(*ssa.FieldAddr)
+			if !ok {
+				return nil, 0, false
+			}
+			al, ok := fa.X.(*ssa.Alloc)
+			if !ok {
+				return nil, 0, false
+			}
+			var stored []ssa.Value
+			for _, r := range referrers(al) {
+				if st, ok := r.(*ssa.Store); ok && st.Addr == ssa.Value(al) {
+					stored = append(stored, st.Val)
+				}
+			}
+			if len(stored) != 1 {
+				return nil, 0, false
+			}
+			return stored[0], fa.Field, true
+		}
+		return nil, 0, false
 	}
-	return res
+	re, rfld, ok1 := norm(recv)
+	te, tfld, ok2 := norm(stripConv(tmpl))
+	if !ok1 || !ok2 || re != te {
+		return same
+	}
+	ld, ok := re.(*ssa.UnOp)
+	if !ok {
+		return same
+	}
+	ia, ok := ld.X.(*ssa.IndexAddr)
+	if !ok {
+		return same
+	}
+	var arr *ssa.Alloc
+	switch x := ia.X.(type) {
+	case *ssa.Slice:
+		arr, _ = x.X.(*ssa.Alloc)
+	case *ssa.Alloc:
+		arr = x
+	}
+	if arr == nil {
+		return same
+	}
+	fieldStores := func(base ssa.Value, into map[int]ssa.Value) {
+		for _, rr := range referrers(base) {
+			fa, ok := rr.(*ssa.FieldAddr)
+			if !ok {
+				continue
+			}
+			for _, r3 := range referrers(fa) {
+				if st, ok := r3.(*ssa.Store); ok && st.Addr == ssa.Value(fa) {
+					into[fa.Field] = st.Val
+				}
+			}
+		}
+	}
+	rows := map[int64]map[int]ssa.Value{}
+	for _, r := range referrers(arr) {
+		ea, ok := r.(*ssa.IndexAddr)
+		if !ok {
+			continue
+		}
+		i, ok := constInt(ea.Index)
+		if !ok {
+			continue
+		}
+		if rows[i] == nil {
+			rows[i] = map[int]ssa.Value{}
+		}
+		fieldStores(ea, rows[i])
+		// whole-struct store of a composite literal built in a local
+		for _, rr := range referrers(ea) {
+			if st, ok := rr.(*ssa.Store); ok && st.Addr == ssa.Value(ea) {
+				if l2, ok := st.Val.(*ssa.UnOp); ok {
+					if tmp, ok := l2.X.(*ssa.Alloc); ok {
+						fieldStores(tmp, rows[i])
+					}
+				}
+			}
+		}
+	}
+	var out [][2]ssa.Value
+	for i := int64(0); i < int64(len(rows)); i++ {
+		row, ok := rows[i]
+		if !ok || row[rfld] == nil || row[tfld] == nil {
+			return same
+		}
+		out = append(out, [2]ssa.Value{row[rfld], row[tfld]})
+	}
+	if len(out) == 0 {
+		return same
+	}
+	return out
 }
